@@ -633,6 +633,47 @@ theorem gen_solveCubic (sqrt : α → α) (pow copysign : α → α → α) (cpo
       ← gen_solveNormalizedCubic]
     simp only [Gen.Roots.solveCubic, Gen.Roots.solveNormalizedCubic, eq_false ha, if_false] <;>
       first | rfl | (split_ifs <;> slots_eq)
+/-! ### headline statements directly about the regenerated definitions (corollaries of the tie) -/
+
+/-- `lerpfactor` inverts `lerp`, for the definitions extracted from the current ImathFun.h -/
+theorem gen_lerpfactor_inverts_lerp (tmax a b t : α) (hab : a ≠ b)
+    (hg : lerpfactorGuard tmax (Gen.Fun.lerp a b t) a b) :
+    Gen.Fun.lerpfactor tmax (Gen.Fun.lerp a b t) a b = t := by
+  rw [gen_lerpfactor]; rw [gen_lerp] at hg ⊢
+  exact Fun.lerpfactor_inverts_lerp tmax a b t hab hg
+
+/-- the extracted `solveQuadratic`, D > 0: count 2, the two slots are exactly the two distinct real roots -/
+theorem gen_solveQuadratic_two_roots (sqrt : α → α) (a b c : α) (ha : a ≠ 0)
+    (hD : 0 < b * b - 4 * a * c)
+    (hs : sqrt (b * b - 4 * a * c) * sqrt (b * b - 4 * a * c) = b * b - 4 * a * c ∧
+      0 ≤ sqrt (b * b - 4 * a * c)) :
+    ∃ x0 x1, Gen.Roots.solveQuadratic sqrt a b c = (2, x0, x1) ∧ x0 ≠ x1 ∧
+      ∀ x, a * x * x + b * x + c = 0 ↔ x = x0 ∨ x = x1 := by
+  obtain ⟨x0, x1, h, _, _, _, r0, r1, hne, hall⟩ := Roots.solveQuadratic_two sqrt a b c ha hD hs
+  refine ⟨x0, x1, ?_, hne, fun x => ⟨hall x, ?_⟩⟩
+  · rw [gen_solveQuadratic, h]; rfl
+  · rintro (rfl | rfl) <;> assumption
+
+example : ∃ x0 x1 : ℚ, Gen.Roots.solveQuadratic (fun _ => (1 : ℚ)) 1 (-3) 2 = (2, x0, x1) ∧ x0 ≠ x1 := by
+  obtain ⟨x0, x1, h, hne, _⟩ := gen_solveQuadratic_two_roots (fun _ => (1 : ℚ)) 1 (-3) 2 (by norm_num) (by norm_num) (by norm_num)
+  exact ⟨x0, x1, h, hne⟩
+
+/-- the extracted `solveNormalizedCubic`, D > 0: count 1 and slot 0 is THE real root (hypotheses on the raw library
+functions the extracted definition takes as parameters) -/
+theorem gen_solveNormalizedCubic_one_root (sqrt : α → α) (pow copysign : α → α → α) (cpow : α → α → α → α × α)
+    (csqrt : α → α → α × α) (r s t : α) (hD : 0 < cubicD r s t)
+    (hs : sqrt (cubicD r s t) * sqrt (cubicD r s t) = cubicD r s t ∧ 0 ≤ sqrt (cubicD r s t))
+    (hcs : (copysign 1 (cardanoA (genF sqrt pow copysign cpow csqrt) r s t) = 1 ∨
+        copysign 1 (cardanoA (genF sqrt pow copysign cpow csqrt) r s t) = -1) ∧
+      0 ≤ copysign 1 (cardanoA (genF sqrt pow copysign cpow csqrt) r s t) * cardanoA (genF sqrt pow copysign cpow csqrt) r s t)
+    (hpow : pow (copysign 1 (cardanoA (genF sqrt pow copysign cpow csqrt) r s t) * cardanoA (genF sqrt pow copysign cpow csqrt) r s t) (1 / 3) *
+        pow (copysign 1 (cardanoA (genF sqrt pow copysign cpow csqrt) r s t) * cardanoA (genF sqrt pow copysign cpow csqrt) r s t) (1 / 3) *
+        pow (copysign 1 (cardanoA (genF sqrt pow copysign cpow csqrt) r s t) * cardanoA (genF sqrt pow copysign cpow csqrt) r s t) (1 / 3) =
+      copysign 1 (cardanoA (genF sqrt pow copysign cpow csqrt) r s t) * cardanoA (genF sqrt pow copysign cpow csqrt) r s t) :
+    ∃ x, Gen.Roots.solveNormalizedCubic sqrt pow copysign cpow csqrt r s t = (1, x, 0, 0) ∧
+      ∀ y, y * y * y + r * (y * y) + s * y + t = 0 ↔ y = x := by
+  obtain ⟨x, hx, hall⟩ := solveNormalizedCubic_real_unique (genF sqrt pow copysign cpow csqrt) r s t hD hs hcs hpow
+  exact ⟨x, by rw [gen_solveNormalizedCubic, hx]; rfl, hall⟩
 end Link
 
 /-- concrete library functions over ℚ for the non-vacuity examples -/
